@@ -2,6 +2,7 @@ package harness
 
 import (
 	"bytes"
+	"fmt"
 	"sort"
 	"testing"
 
@@ -59,7 +60,7 @@ func (mc *Machine) snapshotRestore(t *rapid.T, src *column.Collection, capacity 
 
 func TestC03(t *testing.T) {
 	rapid.Check(t, func(t *rapid.T) {
-		sch := genSchema(t, SchemaCfg{Key: 1, Merges: true, MinCols: 1, MaxCols: 4})
+		sch := genSchema(t, SchemaCfg{Key: 1, Merges: true, EnsureLenMerge: true, MinCols: 1, MaxCols: 4})
 		log := &recLogger{}
 		mc := NewMachine("C03", sch, column.Options{Writer: log})
 		defer mc.Close()
@@ -132,5 +133,85 @@ func TestC03(t *testing.T) {
 			}
 		}
 		RecordCase("C03", mc.Desc(), nt, mc.Labels()...)
+	})
+}
+
+// TestC03Parallel: indexes are created WHILE writers commit (real parallelism);
+// once everything is quiet the index must equal its predicate over the current
+// values. The oracle is evaluated at quiescence only, so it is schedule-independent.
+func TestC03Parallel(t *testing.T) {
+	rapid.Check(t, func(t *rapid.T) {
+		blocks := rapid.IntRange(2, 3).Draw(t, "blocks")
+		writers := rapid.IntRange(1, 4).Draw(t, "writers")
+		threshold := rapid.IntRange(10, 90).Draw(t, "threshold")
+		c := column.NewCollection(column.Options{Capacity: 1024, Vacuum: 24 * 3600 * 1e9})
+		defer c.Close()
+		c.CreateColumn("v", column.ForInt())
+		c.CreateColumn("s", column.ForString())
+		n := (blocks-1)*16384 + 300
+		c.Query(func(txn *column.Txn) error {
+			for i := 0; i < n; i++ {
+				txn.Insert(func(r column.Row) error { r.SetInt("v", i%100); r.SetString("s", "x"); return nil })
+			}
+			return nil
+		})
+		stop := make(chan struct{})
+		done := make(chan struct{}, writers)
+		for w := 0; w < writers; w++ {
+			go func(w int) {
+				defer func() { recover(); done <- struct{}{} }()
+				x := uint32(w*7919 + 1)
+				for i := 0; ; i++ {
+					select {
+					case <-stop:
+						return
+					default:
+					}
+					x = x*1664525 + 1013904223
+					row := (x >> 8) % uint32(n)
+					v := int(x>>3) % 100
+					if i%3 == 0 {
+						c.QueryAt(row, func(r column.Row) error { r.MergeInt("v", 1); return nil })
+					} else {
+						c.QueryAt(row, func(r column.Row) error { r.SetInt("v", v); r.SetString("s", "yy"); return nil })
+					}
+				}
+			}(w)
+		}
+		// create (and re-create) indexes while the writers run
+		for k := 0; k < 3; k++ {
+			c.CreateIndex("big", "v", func(r column.Reader) bool { return r.Int() >= threshold })
+			c.CreateIndex("long", "s", func(r column.Reader) bool { return len(r.String()) > 1 })
+			if k < 2 {
+				c.DropIndex("big")
+				c.DropIndex("long")
+			}
+		}
+		close(stop)
+		for w := 0; w < writers; w++ {
+			<-done
+		}
+		// quiescent: index == predicate over current values
+		wantBig, wantLong := map[uint32]bool{}, map[uint32]bool{}
+		c.Query(func(txn *column.Txn) error {
+			v, s := txn.Int("v"), txn.String("s")
+			return txn.Range(func(idx uint32) {
+				if x, ok := v.Get(); ok && x >= threshold {
+					wantBig[idx] = true
+				}
+				if x, ok := s.Get(); ok && len(x) > 1 {
+					wantLong[idx] = true
+				}
+			})
+		})
+		gotBig, _ := readIndex(c, "big")
+		gotLong, _ := readIndex(c, "long")
+		if d := diffSets(gotBig, wantBig); d != "" {
+			t.Fatalf("C03 violated (index created while %d writers were committing, %d blocks): index big (v >= %d) %s", writers, blocks, threshold, d)
+		}
+		if d := diffSets(gotLong, wantLong); d != "" {
+			t.Fatalf("C03 violated (index created while %d writers were committing, %d blocks): index long (len(s) > 1) %s", writers, blocks, d)
+		}
+		RecordCase("C03", fmt.Sprintf("parallel index creation: blocks=%d writers=%d threshold=%d", blocks, writers, threshold), true, "index-created-under-writers")
 	})
 }
